@@ -158,6 +158,12 @@ func (*c07Prop) Gen(r *Rand, pl *Plan) Case {
 	if alphabet == "abcd" && r.Chance(2, 3) {
 		c.Input = []string{"abcd", "abcda", "ab", "abc", "aabcd"}[r.Intn(5)]
 	}
+	if !hasRich(c.G) && r.Chance(1, 6) {
+		// the same grammar over a non-ASCII alphabet (requests may start inside a rune)
+		to := []string{"é", "世", "\U0001F600"}[r.Intn(3)]
+		c.G.translit('b', to)
+		c.Input = strings.Replace(c.Input, "b", to, -1)
+	}
 	consumers := r.Range(2, 4)
 	nsteps := r.Range(2, 10)
 	memoNodes := []int{}
